@@ -33,6 +33,8 @@ func scenariosFor(prop string, thorough bool) []*scenario {
 		return c15Scenarios(thorough)
 	case "C04":
 		return c04Scenarios(thorough)
+	case "C14":
+		return c14Scenarios(thorough)
 	}
 	return nil
 }
